@@ -140,6 +140,68 @@ rewrite bot -/sq in TE KE *; rewrite TE KE -!mulmxA (mulKmx uZ21) -mulmxDr.
 by congr (_ *m _); rewrite mulmxA; exact: fp.
 Qed.
 
+(* Balanced growth: three consecutive points x0, x1, x2 of an AFFINE steady-state path (x2 - x1 = x1 - x0) that satisfy
+   the unsolved system  A x[t] + B x[t-1] + C = 0  are one step of the solved recursion:  T xi0 + K = xi1.
+   (Theorem steady_is_fixed_point is the case x0 = x1 = x2.)  With C = system_constant A B x1 x0, as System.__init__
+   computes it for models not declared linear, the first premise holds by construction. *)
+Theorem steady_path_is_solution (x0 x1 x2 : 'cV[F]_(nf + nb)) :
+  A *m x1 + B *m x0 + C = 0 -> A *m x2 + B *m x1 + C = 0 -> x2 - x1 = x1 - x0 ->
+  sq_T sq *m dsubmx x0 + sq_K sq = dsubmx x1.
+Proof.
+move=> st1 st2 aff.
+pose w0 := Zi *m x0; pose w1 := Zi *m x1; pose w2 := Zi *m x2.
+have Zw0 : Z *m w0 = x0 by rewrite /w0 mulmxA ZZi mul1mx.
+have Zw1 : Z *m w1 = x1 by rewrite /w1 mulmxA ZZi mul1mx.
+have Zw2 : Z *m w2 = x2 by rewrite /w2 mulmxA ZZi mul1mx.
+have H1 : S *m w1 + T *m w0 + Q *m C = 0.
+  by rewrite -QAZ -QBZ -!mulmxA Zw1 Zw0 -!mulmxDr st1 mulmx0.
+have H2 : S *m w2 + T *m w1 + Q *m C = 0.
+  by rewrite -QAZ -QBZ -!mulmxA Zw2 Zw1 -!mulmxDr st2 mulmx0.
+have dw : w2 - w1 = w1 - w0 by rewrite /w2 /w1 /w0 -!mulmxBr aff.
+(* the difference of the two equations: (S + T) (w1 - w0) = 0 *)
+have Hd : S *m (w1 - w0) + T *m (w1 - w0) = 0.
+  have : (S *m w2 + T *m w1 + Q *m C) - (S *m w1 + T *m w0 + Q *m C) = 0 by rewrite H1 H2 subr0.
+  rewrite -{1}dw !mulmxBr.
+  move: (S *m w2) (S *m w1) (T *m w1) (T *m w0) (Q *m C) => a1 a2 a3 a4 a5 <-; mx_abel.
+move: Hd; rewrite -[w1 - w0]vsubmxK -{1}[S]submxK -{1}[T]submxK S21_0 T21_0 !mul_block_col !mul0mx !add0r.
+rewrite add_col_mx -[0]col_mx0 => /eq_col_mx [_ lod].
+have du : dsubmx w1 = dsubmx w0.
+  have e0 : (drsubmx S + drsubmx T) *m dsubmx (w1 - w0) = 0 by rewrite mulmxDl.
+  have : dsubmx (w1 - w0) = 0 by rewrite -[LHS](mulKmx uST22) e0 mulmx0.
+  by rewrite linearB /= => /eqP; rewrite subr_eq0 => /eqP.
+move: H1; rewrite -[w1]vsubmxK -[w0]vsubmxK du; set s1 := usubmx w1; set s0 := usubmx w0; set ub := dsubmx w0.
+rewrite -{1}[S]submxK -{1}[T]submxK S21_0 T21_0 !mul_block_col !mul0mx !add0r.
+rewrite -[Q *m C]vsubmxK !add_col_mx -[0]col_mx0 => /eq_col_mx [up lo].
+have KuE : ub = ts_Ku p.
+  have e1 : (drsubmx S + drsubmx T) *m ub = (drsubmx S + drsubmx T) *m ts_Ku p.
+    rewrite (@ST22Ku F nf (drsubmx S) (drsubmx T) (dsubmx (Q *m C)) (ts_Ku p) uST22 erefl) mulmxDl.
+    by apply/eqP; rewrite -subr_eq0 opprK; apply/eqP.
+  by rewrite -[LHS](mulKmx uST22) e1 mulKmx.
+pose g0 := s0 - ts_G p *m ts_Ku p.
+pose g1 := s1 - ts_G p *m ts_Ku p.
+have s0E : s0 = g0 + ts_G p *m ts_Ku p by rewrite /g0 subrK.
+have s1E : s1 = g1 + ts_G p *m ts_Ku p by rewrite /g1 subrK.
+have fp : ts_Tg p *m g0 + ts_Kg p = g1.
+  apply: (@core_step_unique F nb nf ne (ulsubmx S) (ulsubmx T) (ursubmx S) (ursubmx T) (usubmx (Q *m C))
+            (usubmx (Q *m D)) (ts_G p) (ts_Xg0 p) (ts_Xg1 p) (ts_Xg p) (ts_Ku p) (ts_Ru p) (ts_J p)
+            (ts_Tg p) (ts_Rg p) (ts_Kg p) uS11 erefl erefl erefl erefl erefl erefl).
+  rewrite -s0E -s1E -KuE -up.
+  move: (ulsubmx S *m s1) (ulsubmx T *m s0) (ursubmx S *m ub) (ursubmx T *m ub) => y1 y2 y3 y4; mx_abel.
+have bot0 : dsubmx x0 = dlsubmx Z *m g0.
+  by rewrite -Zw0 -[w0]vsubmxK -/s0 -/ub s0E KuE (@Zw_bottom F nb nf ne S T Q Z C D uZ21).
+have bot1 : dsubmx x1 = dlsubmx Z *m g1.
+  by rewrite -Zw1 -[w1]vsubmxK du -/s1 -/ub s1E KuE (@Zw_bottom F nb nf ne S T Q Z C D uZ21).
+have TE := @Tsq_eq F nb nf ne C D S T Q Z Ta u uZ21 uu schur.
+have KE := @K_eq F nb nf ne C D S T Q Z Ta u uu.
+rewrite bot0 bot1 -/sq in TE KE *; rewrite TE KE -!mulmxA (mulKmx uZ21) -mulmxDr.
+by congr (_ *m _); rewrite mulmxA; exact: fp.
+Qed.
+
+(* what System.__init__ stores as C for a model that is not declared linear makes the system hold on the steady path *)
+Lemma system_constant_spec (x1 x0 : 'cV[F]_(nf + nb)) :
+  A *m x1 + B *m x0 + @system_constant O (nb + nf) (nf + nb) A B x1 x0 = 0.
+Proof. by rewrite /system_constant /= addrN. Qed.
+
 End Steady.
 
 (* ================================================================== *)
@@ -242,6 +304,29 @@ Proof.
 rewrite /simulate_flat.
 rewrite (@flat_run_ext K _ (xbar + @mrowmask O nb 1 true_init d)); first exact: flat_run_level.
 by rewrite mrowmaskD !mulmxDr masked.
+Qed.
+
+(* growth: along a steady-state path xb (Theorem steady_path_is_solution gives xb (t+1) = T xb t + K) *)
+Theorem level_is_steady_path_plus_deviation (xb : nat -> 'cV[F]_nb) :
+  (forall t, T *m xb t + K = xb t.+1) ->
+  T *m @mrowmask O nb 1 true_init (xb 0%N) = T *m xb 0%N ->
+  @simulate_flat O nb nf ne false true_init T P K X J Ru (xb 0%N + d) us vs
+  = shift_path xb 0 (@simulate_flat O nb nf ne true true_init T P K X J Ru d us vs).
+Proof.
+move=> path msk; rewrite /simulate_flat.
+rewrite (@flat_run_ext K _ (xb 0%N + @mrowmask O nb 1 true_init d)); first exact: flat_run_level_path.
+by rewrite mrowmaskD !mulmxDr msk.
+Qed.
+
+Corollary level_path_pointwise (xb : nat -> 'cV[F]_nb) :
+  (forall t, T *m xb t + K = xb t.+1) ->
+  T *m @mrowmask O nb 1 true_init (xb 0%N) = T *m xb 0%N ->
+  let dev := @simulate_flat O nb nf ne true true_init T P K X J Ru d us vs in
+  let lev := @simulate_flat O nb nf ne false true_init T P K X J Ru (xb 0%N + d) us vs in
+  size lev = size dev /\ forall t, (t < size dev)%N -> nth 0 lev t = xb t.+1 + nth 0 dev t.
+Proof.
+move=> path msk /=; rewrite (level_is_steady_path_plus_deviation path msk) size_shift_path.
+by split=> // t lt; rewrite nth_shift_path.
 Qed.
 
 End Level.
